@@ -113,7 +113,7 @@ func registerAll() {
 		Rule: regRule + "For C07 each dispatch is compared with a reference dispatch over the model register (declared name -> registered kind; nothing declared -> profile 1; unregistered or non-string value -> error) and with decoding the same bytes straight into a fresh NewClaims(declared) instance and validating it. non-trivial = at least one accepted token whose reported profile was checked, with an extra profile registered; distinct as for C16",
 		Real: commonReal, Stubs: stubsReg,
 		Assumptions: []string{"documents the property leaves open (profile claim null in CBOR, both profiles' members, a registered name under another profile's member) get only the weak invariant: never decoded as a profile other than a declared one or the default"},
-		MustProbes:  []string{"accepted_token_profile_checked", "dispatch_expect_error", "dispatch_expect_p1", "dispatch_expect_p2", "dispatch_expect_xp1", "dispatch_expect_xp2", "dispatch_expect_own", "dispatch_expect_opt", "dispatch_expect_two", "dispatch_expect_str", "dispatch_expect_xp1n", "dispatch_expect_loca", "dispatch_expect_locb", "dispatch_weak"},
+		MustProbes:  []string{"accepted_token_profile_checked", "dispatch_expect_error", "dispatch_expect_p1", "dispatch_expect_p2", "dispatch_expect_xp1", "dispatch_expect_xp2", "dispatch_expect_own", "dispatch_expect_opt", "dispatch_expect_two", "dispatch_expect_str", "dispatch_expect_xp1n", "dispatch_expect_loca", "dispatch_expect_locb", "dispatch_expect_near", "dispatch_weak"},
 	}
 
 	props["C17"] = &propSpec{
